@@ -1163,6 +1163,9 @@ class _CycleCell(_Cell):
         self._prev_value = None
         self.wip = False
         super().__init__(*args, **kwargs)
+        # a cell that was just built has not been calculated in this pass
+        iterative_eval_tracker.ns.computed.discard(self)
+        iterative_eval_tracker.ns.todo.discard(self)
 
     @property
     def value(self):
